@@ -232,7 +232,9 @@ func (n *Node) update(_type NodeType, value interface{}) error {
 				}
 			}
 		}
-		n.value.Store(value)
+		if _type != Array && _type != Object {
+			n.value.Store(value)
+		}
 	}
 	return nil
 }
@@ -284,6 +286,7 @@ func (n *Node) remove(value *Node) error {
 		return errorRequest("wrong parent")
 	}
 	n.mark()
+	n.value = atomic.Value{}
 	if n.IsArray() {
 		delete(n.children, strconv.Itoa(*value.index))
 		n.dropindex(*value.index)
@@ -318,6 +321,7 @@ func (n *Node) appendNode(key *string, value *Node) error {
 	}
 	value.parent = n
 	value.key = key
+	n.value = atomic.Value{}
 	if key != nil {
 		if old, ok := n.children[*key]; ok {
 			if old != value {
